@@ -222,6 +222,9 @@ def weave_normalize(w, sc):
     if hole_read(w, i, j) != 1:
         raise LostAnchor(f"{w._where(i)}: expected exactly one hole read in the hole arm")
     insert_at(w, i + 1, sc["normalize_weak_head.hole"], anchor="Unifier arm")
+    # variable arm: the context lookup (plain entry: neutral; let-bound entry: the delta rule)
+    i, j = arm(w, r"^        Variable\(_, index\) => \{$")
+    insert_at(w, i + 1, sc["normalize_weak_head.var"], anchor="Variable arm")
     # R3
     U.rewrite_bigint_ops(w)
     # Quotient: R10 on checked_div(..).map_or_else
